@@ -353,7 +353,15 @@ def merge_idx_rules(ctx, obs, rule, which=(('_merge_idx', 'union'), ('_intersect
         okf = len(fast) == 1 and [unparse(t) for t, pol in guards_of(obs, fast[0], stop=f) if pol] == ['_check_lists_equal(%s)' % p]
         ctx.check(rule, key + '#identical-lists', okf, 'identical lists are returned unchanged', 'fast path differs', obs.loc(f))
         rng = [r for r in rets if isinstance(r.value, ast.Name) and r.value.id == 'idrange']
-        okr = len(rng) == 1 and any('_check_lists_equal(idtest)' in unparse(t) and pol for t, pol in guards_of(obs, rng[0], stop=f))
+        sorted_name = 'idunion' if op == 'union' else 'idinter'
+
+        def exact_test(t_):
+            u = unparse(t_)
+            # the element-wise comparison, through the helper or written out: list(idrange) == <sorted list> (either order)
+            return '_check_lists_equal(idtest)' in u or u in ('list(idrange) == %s' % sorted_name, '%s == list(idrange)' % sorted_name,
+                                                                '_check_lists_equal([list(idrange), %s])' % sorted_name)
+        okr = len(rng) == 1 and any(exact_test(t) and pol for t, pol in guards_of(obs, rng[0], stop=f))
+        direct_test = okr and not any('idtest' in unparse(t) for t, pol in guards_of(obs, rng[0], stop=f))
         ctx.check(rule, key + '#range-when-regular', okr, 'a range is returned when it reproduces the %s exactly' % op, 'range conversion missing or unguarded', obs.loc(f))
         d = [s for s in statements(f) if isinstance(s, ast.Assign) and unparse(s.targets[0]) == 'idrange']
         okd = len(d) == 1 and isinstance(d[0].value, ast.Call) and call_name(d[0].value) == 'range' and len(d[0].value.args) == 3
@@ -363,7 +371,7 @@ def merge_idx_rules(ctx, obs, rule, which=(('_merge_idx', 'union'), ('_intersect
             okd = a == ['%s[0]' % v, '%s[-1] + 1' % v, '%s[1] - %s[0]' % (v, v)]
         ctx.check(rule, key + '#range-parameters', okd, 'candidate range(first, last + 1, second - first)', 'candidate range is %s' % [unparse(s.value) for s in d], obs.loc(f))
         t = [s for s in statements(f) if isinstance(s, ast.Assign) and unparse(s.targets[0]) == 'idtest']
-        ctx.check(rule, key + '#range-test', len(t) == 1 and unparse(t[0].value).startswith('[list(idrange), id'), 'the candidate is compared element-wise with the sorted %s' % op, 'range test %s' % [unparse(s.value) for s in t], obs.loc(f))
+        ctx.check(rule, key + '#range-test', direct_test or (len(t) == 1 and unparse(t[0].value).startswith('[list(idrange), id')), 'the candidate is compared element-wise with the sorted %s' % op, 'range test %s' % [unparse(s.value) for s in t], obs.loc(f))
         # every other return must be one of the known forms; a range built from an inclusive last element must include it
         for r in rets:
             v = r.value
@@ -395,7 +403,9 @@ def merge_idx_rules(ctx, obs, rule, which=(('_merge_idx', 'union'), ('_intersect
                 ctx.unrec(rule, key + '#extra-return[%s]' % txt[:40], 'additional return path not understood', obs.loc(r))
         srt = [s for s in statements(f) if isinstance(s, ast.Assign) and isinstance(s.value, ast.Call) and call_name(s.value) == 'sorted']
         want = 'sorted(set().union(*%s))' % p if op == 'union' else 'sorted(set.intersection(*[set(o) for o in %s]))' % p
-        ctx.check(rule, key + '#sorted-%s' % op, len(srt) == 1 and unparse(srt[0].value) == want, 'result = sorted %s of the lists' % op, 'result built as %s' % [unparse(s.value) for s in srt], obs.loc(f))
+        alt = ['sorted(set().union(*%s))' % p, 'sorted(set.union(*[set(o) for o in %s]))' % p, 'sorted(set.union(*map(set, %s)))' % p] if op == 'union' else \
+            ['sorted(set.intersection(*[set(o) for o in %s]))' % p, 'sorted(set.intersection(*map(set, %s)))' % p, 'sorted(set.intersection(*(set(o) for o in %s)))' % p]
+        ctx.check(rule, key + '#sorted-%s' % op, len(srt) == 1 and unparse(srt[0].value) in alt + [want], 'result = sorted %s of the lists' % op, 'result built as %s' % [unparse(s.value) for s in srt], obs.loc(f))
 
 
 def d5_idl_normalisation(ctx, obs):
